@@ -1,6 +1,12 @@
 package simrt
 
-import "math/rand"
+import (
+	"encoding/json"
+	"errors"
+	"math/rand"
+	"strconv"
+	"strings"
+)
 
 // Choice kinds.
 const (
@@ -21,6 +27,83 @@ type Choice struct {
 	K uint8 `json:"k"`
 	N int32 `json:"n"`
 	V int32 `json:"v"`
+}
+
+// ChoiceList is a recorded choice stream. In JSON it is one string of
+// space-separated "k.n.v" triples (a run of identical triples is written
+// "k.n.v*count"): replay files of long runs hold several hundred thousand
+// decisions. The older array-of-objects form is still read.
+type ChoiceList []Choice
+
+// MarshalJSON writes the compact form.
+func (l ChoiceList) MarshalJSON() ([]byte, error) {
+	b := make([]byte, 0, 12*len(l)+2)
+	b = append(b, '"')
+	for i := 0; i < len(l); {
+		j := i + 1
+		for j < len(l) && l[j] == l[i] {
+			j++
+		}
+		if i > 0 {
+			b = append(b, ' ')
+		}
+		b = strconv.AppendInt(b, int64(l[i].K), 10)
+		b = append(b, '.')
+		b = strconv.AppendInt(b, int64(l[i].N), 10)
+		b = append(b, '.')
+		b = strconv.AppendInt(b, int64(l[i].V), 10)
+		if j-i > 1 {
+			b = append(b, '*')
+			b = strconv.AppendInt(b, int64(j-i), 10)
+		}
+		i = j
+	}
+	b = append(b, '"')
+	return b, nil
+}
+
+// UnmarshalJSON reads the compact form or the array-of-objects form.
+func (l *ChoiceList) UnmarshalJSON(b []byte) error {
+	*l = nil
+	if len(b) == 0 || string(b) == "null" {
+		return nil
+	}
+	if b[0] == '[' {
+		var raw []Choice
+		if err := json.Unmarshal(b, &raw); err != nil {
+			return err
+		}
+		*l = raw
+		return nil
+	}
+	var s string
+	if err := json.Unmarshal(b, &s); err != nil {
+		return err
+	}
+	for _, f := range strings.Fields(s) {
+		count := 1
+		if k := strings.IndexByte(f, '*'); k >= 0 {
+			c, err := strconv.Atoi(f[k+1:])
+			if err != nil || c < 1 {
+				return errors.New("choice list: bad repeat count in " + f)
+			}
+			count, f = c, f[:k]
+		}
+		p := strings.Split(f, ".")
+		if len(p) != 3 {
+			return errors.New("choice list: bad entry " + f)
+		}
+		kk, e1 := strconv.Atoi(p[0])
+		nn, e2 := strconv.Atoi(p[1])
+		vv, e3 := strconv.Atoi(p[2])
+		if e1 != nil || e2 != nil || e3 != nil {
+			return errors.New("choice list: bad entry " + f)
+		}
+		for ; count > 0; count-- {
+			*l = append(*l, Choice{K: uint8(kk), N: int32(nn), V: int32(vv)})
+		}
+	}
+	return nil
 }
 
 // Choices is the single stream every run-time decision is drawn from. In
